@@ -211,6 +211,8 @@ func checkC18(p *load.Program, r *kit.Report) {
 }
 
 func checkC19(p *load.Program, r *kit.Report) {
+	importRules(p, r, "C17", "locators are built from repo.longest: after MarkHeaderInvalid removed branches the tip must be re-selected, or the locator names removed headers", 1,
+		func(o *kit.Obligation) bool { return strings.Contains(o.Construct, "reselect-after-trim") }, "MUST-PASS")
 	importRules(p, r, "C10", "a locator names the base of every tracked side branch: pruning must keep the headers side branches fork from", 1, nil, "COVER-ALL")
 	r.NotDecided = "that a protocol-conformant peer's reply connects to a header we hold (needs a peer model); whether sorting by height makes every duplicate adjacent; locator contents for a given history."
 	r.Rule("PROVENANCE", "every hash placed in a locator is AtHeight(h).Hash / Last().Hash of the branch, a split's BeforeHash, or AtHeight(PrunedLowestHeight()).Hash of a branch other than the best one", 5)
@@ -409,6 +411,19 @@ func checkC19(p *load.Program, r *kit.Report) {
 				b := g.If.Cond.(*ssa.BinOp)
 				if b.Op == token.GTR {
 					bad = "the maximum is tested with >: one hash more than requested is returned"
+				}
+				if b.Op == token.EQL {
+					// equality is only a bound when the list grows by one between two tests
+					rr := kit.Reach(f, []kit.Pt{kit.EdgeStart(g.FailEdge())}, kit.Opts{StopAt: kit.InstrSet(g.If)})
+					nApp := 0
+					kit.AllInstrs(f, func(in ssa.Instruction) {
+						if c, ok := in.(*ssa.Call); ok && kit.CallID(c) == "builtin.append" && rr.Has(in) && c.Type() == b.X.(*ssa.Call).Call.Args[0].Type() {
+							nApp++
+						}
+					})
+					if nApp > 1 {
+						bad = "the maximum is tested with == although the list can grow by more than one entry between two tests (fork points are added in the same walk): the length steps over max and the walk runs on"
+					}
 				}
 			}
 		}
